@@ -3,6 +3,23 @@
 import json, re
 V = "/verif"
 NOTES = {
+ "h06A": "caught (thread-local offset scratch left dirty by a rejected decode): the replay decodes rejected and accepted inputs on one thread",
+ "h06B": "missed first (log argument evaluated only at Trace level slices 8 bytes of a 4-byte input): library suites now run with a Trace-level logger",
+ "h12B": "judged under C09 (a failed send ends the batch)",
+ "h13B": "missed first (all verifier objects share one thread-local buffer): interleaved verifier objects",
+ "h15A": "missed first under C15 (EINTR after suspend/resume kills the workers; C18's stalled bursts caught it): suspend/resume added to C15 scenarios",
+ "h16B": "missed first (several YAML documents: everything after --- dropped): multidoc files in Config.tla (may refuse, never other values)",
+ "h01B": "missed first (non-point pinned key falls back to a default key under which a neutral-point signature verifies): unusable-key runs (malformed and non-point keys) with the honest response and with the neutral forgery",
+ "h02A": "missed first (IETF requests sharing a nonce in different packets, back to back): same-nonce / different-packet neighbours in the burst driver",
+ "h02B": "missed first (one fault coin per batch: share unchanged, decisions correlated): per-batch grease events from the hooks, rule fault_not_per_response",
+ "h03B": "missed first (today's UTC offset used for every midpoint): local wall-clock output in a daylight-saving zone, expected text from date(1)",
+ "h04A": "missed first (path cache across batches, only visible when positions are not asked in ascending order): shuffled / descending / odd-first query orders and re-queries",
+ "h05A": "caught by the accessor checks (encoded_size / get_field / num_fields) added just before",
+ "h05B": "caught by the Clear action and the clear()-reuse of one builder object added just before",
+ "h07A": "missed first (repeated tag accepted): every field of each request shape repeated / neighbouring fields swapped",
+ "h08A": "missed first (16-bit counter overflows after 65 536 invalid datagrams from one address): bulk event, 70 000 junk datagrams with both recorder kinds",
+ "h08B": "judged under C19 (accept error makes the health-check loop spin: the worker never looks at the flag again)",
+ "h10B": "missed first; judged under C16 (ROUGHENOUGH_SEED overrides the file's seed): every other file-source probe runs with conflicting ROUGHENOUGH_* variables set",
  "g01A": "missed first (inverted delegation window signed by the genuine key): Client.tla lets the genuine key certify any window; inverted_lo / inverted_hi classes",
  "g03A": "missed first (local-time output in a non-UTC zone): client runs rotate UTC / TZ=EST5 / a DST zone without -z",
  "g03B": "missed first (reply from another address than the request's destination): server addressed as 127.0.0.2, wildcard-bound responder",
